@@ -165,8 +165,8 @@ class Kauri(ClusterMixin, BaseEstimator, ABC):
                 kernel = y
         else:
             kernel = pairwise_kernels(X, metric=self.kernel)
-        # The compiled split search and objective only take double precision buffers
-        return np.asarray(kernel, dtype=np.float64)
+        # The compiled split search and objective only take writable double precision buffers
+        return np.require(kernel, dtype=np.float64, requirements="W")
 
     def fit(self, X, y=None):
         """Performs the KAURI algorithm by repeatedly choosing leaves, evaluating best gain and increasing the tree
